@@ -47,10 +47,12 @@ func (l *lexer) run() {
 	for state := lexStart; state != nil; {
 		state = state(l)
 	}
+	verifPoint(13)
 	close(l.tokens)
 }
 
 func (l *lexer) emit(t tokenType) {
+	verifPoint(12)
 	l.tokens <- token{
 		typ: t,
 		val: l.current(),
@@ -60,6 +62,7 @@ func (l *lexer) emit(t tokenType) {
 }
 
 func (l *lexer) emitError(format string, args ...any) {
+	verifPoint(12)
 	l.tokens <- token{
 		typ: tERR,
 		err: fmt.Errorf(format, args...),
@@ -78,6 +81,7 @@ const (
 // next gets the next rune from the input.
 func (l *lexer) next() (r rune) {
 	if l.pos >= len(l.input) {
+		verifPoint(10)
 		s, ok := <-l.inputs
 		if !ok {
 			if l.pos == l.start {
@@ -89,6 +93,7 @@ func (l *lexer) next() (r rune) {
 		l.input = l.input[l.start:l.pos] + s
 		l.posShift += l.start
 		l.lpUpd(s, l.posShift+l.pos-l.start)
+		verifPoint(11)
 		l.pos -= l.start
 		l.start = 0
 	}
